@@ -273,6 +273,28 @@ def variants(case, labels, vec):
         require(labels_equal(li, labels) and core.close(vi, vec, 1e-12, 1e-13 * scale),
                 'int32 input: %s vs float %s' % (core._short(vi), core._short(vec)),
                 'int-vs-float')
+        # narrow storage types (counts, pixel values): the numbers held are what counts
+        for dt in (np.int16, np.int8, np.uint8):
+            info = np.iinfo(dt)
+            if x.min() >= info.min and x.max() <= info.max:
+                li, vi, _ = lib_unbalanced(case, x.astype(dt), sig='raises:calc_rdm_unbalanced:int')
+                require(labels_equal(li, labels) and core.close(vi, vec, 1e-12, 1e-13 * scale),
+                        '%s input: %s vs float %s' % (np.dtype(dt).name, core._short(vi),
+                                                      core._short(vec)), 'int-vs-float')
+    # the precision matrix is 'used only for Mahalanobis and Crossnobis estimators' (docstring): the
+    # other methods give the same numbers when one is passed along (one kwargs dict for all methods)
+    if case['method'] in ('euclidean', 'poisson', 'poisson_cv') and known_region(case) is None \
+            and not has_mask(case):
+        p_ = x.shape[1]
+        nz = 2.0 * np.eye(p_) + 0.25
+        kw = call_kwargs(case)
+        kw['noise'] = nz
+        rn = lib(calc_rdm_unbalanced, make_dataset(case, x.copy()), on_error='violation',
+                 sig='raises:calc_rdm_unbalanced:unused-noise', **kw)
+        vn = np.asarray(rn.dissimilarities, dtype=float)
+        require(core.close(vn, vec, 1e-12, 1e-13 * scale), "method %r with a precision matrix passed "
+                "along: %s, without it %s" % (case['method'], core._short(vn), core._short(vec)),
+                'unused-noise:' + case['method'])
     # a list of datasets with one precision per dataset: each RDM uses its own precision
     # (the distance is linear in the precision, so 2N gives twice the N values)
     if case['noise'] is not None and case['method'] in ('mahalanobis', 'crossnobis') \
@@ -530,6 +552,8 @@ def values(draw, n, p, method):
     if method == 'correlation':
         kind = draw(st.sampled_from(['grid', 'smallint']))
         return _bump_constant_rows(draw(gen.matrix(n, p, kind=kind, kmax=16)))
+    if draw(st.integers(0, 2)) == 0:
+        return draw(gen.matrix(n, p, kind='ubyte'))     # pixel values / counts up to 255
     return draw(gen.matrix(n, p))
 
 
